@@ -236,15 +236,15 @@ def slice_strs(fb, body, sl):
             ops = node['args']
         for o in ops:
             if 'promoted' in o:
-                out += promoted_strs(fb, body, o['promoted'])
+                out += promoted_strs(fb, body, o['promoted'], o.get('powner'))
             elif 'uneval' in o and 'promoted' not in o:
                 out.append('const:' + o['uneval'])
     return out
 
 
-def promoted_strs(fb, body, idx):
+def promoted_strs(fb, body, idx, owner=None):
     out = []
-    owner = body.id
+    owner = owner or body.id
     pid = '%s::{promoted#%d}' % (owner, idx)
     for b in fb.bodies(body.crate, 'Rlib' if (body.crate, 'Rlib') in fb.available() else 'ProcMacro'):
         if b.id == pid:
